@@ -660,7 +660,10 @@ func handleQueryCustom(app *BaseApp, path []string, req abci.RequestQuery) (res 
 	// cache wrap the commit-multistore for safety
 	ctx := sdk.NewContext(
 		newMS, app.checkState.ctx.BlockHeader(), true, app.logger,
-	).WithBlockStore(app.checkState.ctx.BlockStore()).WithAppVersion(app.appVersion)
+	).WithBlockStore(app.checkState.ctx.BlockStore()).WithAppVersion(app.appVersion).
+		// a query context reads the state of req.Height: it must neither be served from nor fill the keepers'
+		// node-local LRU caches, which hold the latest state and are read by block execution
+		SetPrevCtx(true)
 
 	// Passes the rest of the path as an argument to the querier.
 	//
